@@ -26,11 +26,12 @@ struct pstate {
 	char **comment;
 	char **opttitle;
 	cfg_opt_t *funcopt;
+	unsigned long *skip_depth; /* open braces of undeclared sections being skipped */
 };
 static void verif_step(cfg_t *cfg, int level, int force_state, struct pstate *ps);
 #define LIBCONFUSE_VERIF_PARSE_STEP()                                                        \
 	do {                                                                                 \
-		struct pstate ps_ = { &state, &opt, &ignore, &num_values, &comment, &opttitle, &funcopt }; \
+		struct pstate ps_ = { &state, &opt, &ignore, &num_values, &comment, &opttitle, &funcopt, &skip_depth }; \
 		verif_step(cfg, level, force_state, &ps_);                                   \
 	} while (0)
 
@@ -335,6 +336,7 @@ static char pre_title[3][2];
 static char *pre_comment;
 static char pre_comment_txt[2];
 static int pre_state, pre_num_values, pre_ignore, pre_level, pre_line;
+static unsigned long pre_skip;
 static char *pre_pending; /* pending annotation (parser local) */
 static char pre_pending_txt[NTOK + 1];
 static int pre_has_title;
@@ -531,6 +533,17 @@ static void verif_step(cfg_t *cfg, int level, int force_state, struct pstate *ps
 		}
 #if PSTATE >= 10
 		{
+			/* inside the body of a skipped undeclared section (FORCE10) the count of its open braces is >= 1 */
+			V_IN_UINT(vin_skip_depth);
+#ifdef FORCE10
+			V_ASSUME(vin_skip_depth >= 1);
+			*ps->skip_depth = vin_skip_depth;
+#else
+			(void)vin_skip_depth;
+			*ps->skip_depth = 0;
+#endif
+		}
+		{
 			V_IN_INT(vin_ignore);
 #if PSTATE == 13
 			V_ASSUME(vin_ignore == '=' || vin_ignore == ')' || vin_ignore == '}');
@@ -594,6 +607,7 @@ static void verif_step(cfg_t *cfg, int level, int force_state, struct pstate *ps
 		pre_state = *ps->state;
 		pre_num_values = *ps->num_values;
 		pre_ignore = *ps->ignore;
+		pre_skip = *ps->skip_depth;
 		pre_pending = *ps->comment;
 		pre_opt = *ps->opt;
 		pre_nargs = (int)ps->funcopt->nvalues;
@@ -739,9 +753,7 @@ int main(void)
 #endif
 	/* the nesting level is a concrete obligation parameter (the automaton only tests level == 0 and
 	 * passes level + 1 down); a symbolic level would make the hook's call counting symbolic */
-#ifdef FORCE10
-	rc = cfg_parse_internal(ctx, LEVEL, 10, NULL);
-#elif defined(VIA_PARSE_FP)
+#if defined(VIA_PARSE_FP)
 	/* the step is entered the way applications enter it, through the real cfg_parse_fp() (LEVEL 0 only) */
 	rc = cfg_parse_fp(ctx, (FILE *)&root) == CFG_PARSE_ERROR ? STATE_ERROR : STATE_EOF;
 #else
